@@ -224,7 +224,7 @@ items += [
     RawFile(os.path.join(HERE, '..', 'u_sub', 'mp_spec.rs'), 'mp_spec.rs'),
     RawFile('mp_build.rs'),
     Raw('''
-// TRUSTED: regex-syntax's parser (external crate) and the error value rebuilt with the pattern index in its message
+// contract of parse_regex_syntax PROVED in unit U-parse (relative to the uninterpreted parser spec_parse_ok / spec_parse); TRUSTED: the error value rebuilt with the pattern index in its message
 #[verifier::external_body] pub fn parse_regex_syntax(input: &str) -> (r: Result<Ast>)
     ensures r matches Ok(a) ==> a == spec_parse(input@)
 { unimplemented!() }
